@@ -619,6 +619,15 @@ class Interp:
                 m = self.front.find_method(o.cls, e.func.attr)
                 ann = ast.unparse(m.node.returns) if (m is not None and m.node.returns is not None) else ""
                 add({"float": "real", "int": "int", "bool": "bool"}.get(ann, "opaque"))
+            elif isinstance(e, ast.Name):
+                # assigned from a parameter of the method: its annotation tells the kind (`n_samples: int`)
+                mi = self.front.find_method(owner, meth) if meth else None
+                ann = ""
+                if mi is not None:
+                    for arg in mi.node.args.args + mi.node.args.kwonlyargs:
+                        if arg.arg == e.id and arg.annotation is not None:
+                            ann = ast.unparse(arg.annotation)
+                add({"float": "real", "int": "int", "bool": "bool"}.get(ann.split("|")[0].strip(), "opaque"))
             else:
                 add("opaque")
         pick = kinds[self.path.choose(len(kinds), f"unmodelled:{o.cls}.{attr}")] if len(kinds) > 1 else kinds[0]
@@ -863,6 +872,10 @@ class Interp:
                 return self.reg.arr_unop(self, "neg", a, n)
             if isinstance(a, Z):
                 return I(-to_int(a)) if a.kind in ("int", "bool") else R(-a.e)
+            if isinstance(a, Sym) and a.tag == "inf":
+                # float('inf') / -float('inf'): opaque infinite constants (distinct from every real and from each other)
+                nm = str(a.e)
+                return Sym(z3.Const(nm[1:] if nm.startswith("-") else "-" + nm, a.e.sort()), "inf")
         if isinstance(n.op, ast.UAdd):
             return a
         if isinstance(n.op, ast.Invert) and isinstance(a, Arr) and a.elem == "bool":
